@@ -542,6 +542,39 @@ def concurrent(res, exes):
 
 # ------------------------------------------------------------------------------------------
 
+def free_running(res):
+    """real OS threads on one real queue (harness/wsq_stress.c: owner push/pop/put, thieves take + trypass back, a
+    peeker), and yielding threads on one worker of the whole library (sync_stress_prog yieldfair): what needs two
+    participants inside an uninstrumented window, or is a matter of which end of the queue a yield re-inserts at"""
+    lib, err = common.build_lib()
+    if err:
+        res.brk("build", "library does not build: " + err)
+        return
+    exe = os.path.join(common.BUILD, "bin", "wsq_stress")
+    e = common.cc(os.path.join(common.HARNESS, "wsq_stress.c"), exe, flags=CFLAGS, libs=[lib, "-lpthread", "-ldl"])
+    if e:
+        res.brk("build", "wsq_stress does not build: " + e[-400:])
+        return
+    shapes = [(3, 32, 300), (7, 64, 300), (1, 8, 300), (2, 1, 300), (14, 128, 300)]
+    if res.tier == "thorough":
+        shapes = shapes * 6
+    rng = common.Splitmix(res.seed * 4099 + 3)
+    done = 0
+    for (nth, tok, ms) in shapes:
+        args = [nth, tok, ms, rng.below(1 << 30) + 1]
+        rc, out, er = common.sh([exe] + [str(a) for a in args], timeout=60)
+        done += 1
+        if rc == 0 and "RESULT ok" in out:
+            continue
+        what = "hang (no result within 60 s)" if rc == -9 else ((out.strip().splitlines() or [""])[-1] or "crash rc=%s %s" % (rc, er.strip()[-200:]))
+        rp = common.write_replay("C02", "stress.txt", "wsq_stress %s\n# free running: NTHIEVES TOKENS MILLISECONDS SEED (real OS threads on one real queue)\n%s\n" % (" ".join(map(str, args)), what))
+        res.violations.append((rp, True, "free-running queue stress (owner + %d thieves taking and passing back, %d tokens): %s" % (nth, tok, what)))
+        return
+    res.add_cases(done, done, [], rule="C02/free running: wsq_stress NTHIEVES TOKENS MS SEED — owner push/pop/put, thieves take + trypass, a peeker, on one real queue; every token held by at most one participant, all tokens popped exactly once at the end")
+    from props import sched_common
+    sched_common.free_stress(res, "C02", "yieldfair", [(1, 2, 1, 0), (1, 3, 4, 0), (1, 5, 2, 0), (2, 4, 3, 0)])
+
+
 def run(res):
     vals, err = run_consts()
     if err:
@@ -555,6 +588,8 @@ def run(res):
     if res.violations:
         return
     concurrent(res, exes)
+    if not res.violations:
+        free_running(res)
     # the TSO model with the code's fences must be violation-free on the standard scenarios (sanity of the search itself)
     hit = tso_search("1111", limit=200000)
     if hit:
@@ -569,6 +604,28 @@ def run(res):
 
 
 def replay(path):
+    if path.endswith("stress.txt"):
+        first = open(path).readline().split()
+        if first and first[0] == "sync_stress_prog":
+            from props import sched_common
+            return sched_common.replay_stress("C02", path)
+        lib, err = common.build_lib()
+        exe = os.path.join(common.BUILD, "bin", "wsq_stress")
+        e = err or common.cc(os.path.join(common.HARNESS, "wsq_stress.c"), exe, flags=CFLAGS, libs=[lib, "-lpthread", "-ldl"])
+        if e:
+            print("build failed:", e)
+            return 2
+        bad = 0
+        for _ in range(5):
+            rc, out, er = common.sh([exe] + first[1:], timeout=60)
+            print(out.strip() or "rc=%s" % rc)
+            if rc != 0 or "RESULT ok" not in out:
+                bad += 1
+        if bad:
+            print("VIOLATION property=C02 replay=%s" % path)
+            return 1
+        print("no violation on replay (5 free runs)")
+        return 0
     exes, err = build()
     if err:
         print("build failed:", err)
